@@ -127,6 +127,12 @@ func paths(e *env, peerIP, peerPort string) []pathCase {
 		{"addr-qualified-ipv6", fmt.Sprintf("/tmp/FS_::1_%s_%s", peerPort, t), false},
 		{"addr-qualified-hostname", fmt.Sprintf("/tmp/FS_host.example.org_%s_%s", peerPort, t), false},
 		{"addr-qualified-port-too-long", fmt.Sprintf("/tmp/FS_%s_961800_%s", peerIP, t), false},
+		{"addr-qualified-suffix-dot", fmt.Sprintf("/tmp/FS_%s_%s_%s.x", peerIP, peerPort, t), false},
+		{"addr-qualified-suffix-dash", fmt.Sprintf("/tmp/FS_%s_%s_%s-x", peerIP, peerPort, t), false},
+		{"addr-qualified-suffix-too-long", fmt.Sprintf("/tmp/FS_%s_%s_%s01234567890123456", peerIP, peerPort, t), false},
+		{"addr-qualified-suffix-control", fmt.Sprintf("/tmp/FS_%s_%s_%s\x01", peerIP, peerPort, t), false},
+		{"addr-qualified-suffix-empty", fmt.Sprintf("/tmp/FS_%s_%s_", peerIP, peerPort), false},
+		{"addr-qualified-remote-suffix-dot", fmt.Sprintf("/tmp/FS_REMOTE_%s_%s_%s.x", peerIP, peerPort, t), false},
 		{"empty", "", false},
 		{"relative", "FS_" + t, false},
 		{"relative-tmp", "tmp/FS_" + t, false},
